@@ -11,6 +11,7 @@ def jobs(tier, names=None, prop="C07"):
         base = int(c["base"], 16)
         d = {"CPU": '"%s"' % c["cpu"], "DISASM_FN": c["disasm"], "DISASM_HDR": '"%s"' % c["hdr"], "NBYTES": c["nbytes"], "BASE": base, "ORG": base,
              "MINLEN": c["minlen"], "MAXLEN": c["maxlen"], "FLAGS": c["flags"], "ENDIAN": c["endian"], "NORMBITS": 16 if n in ("msp430", "6502", "65816", "6800", "6809", "68hc08", "8008", "8048", "8051", "z80", "stm8", "avr8", "tms9900", "pdp11", "lc3", "1802") else 32}
+        if n in ("riscv", "msp430"): d["STRIP_ANNOT"] = None
         # the opcode space is partitioned by the high nibble of the opcode-bearing byte so that all cores work on one CPU
         pb = {"msp430": 1, "avr8": 1, "tms9900": 0, "riscv": 0, "6502": 0, "z80": 0, "8051": 0, "stm8": 0, "68000": 0, "pdp11": 1, "lc3": 0, "6800": 0, "6809": 0, "68hc08": 0}.get(n)
         if pb is None:
